@@ -232,5 +232,263 @@ theorem unify_good : ∀ (f : Nat) (E : List Eqn) (S : List Bind), Good (unify f
           · rintro ⟨⟨⟨h1, h2⟩, hE⟩, hS⟩; exact ⟨⟨h1, h2, hE⟩, hS⟩
           · rintro ⟨⟨h1, h2, hE⟩, hS⟩; exact ⟨⟨⟨h1, h2⟩, hE⟩, hS⟩
 
+
+/-! ### solved form and the least solution -/
+
+def Solved (S : List Bind) (E : List Eqn) : Prop :=
+  (∀ p ∈ S, ∀ q ∈ S, q.2.occurs p.1 = false) ∧
+  (∀ p ∈ S, ∀ e ∈ E, e.1.occurs p.1 = false ∧ e.2.occurs p.1 = false) ∧
+  (S.map (·.1)).Nodup
+
+theorem occurs_subst_self (u : Tm) (x : Nat) (t : Tm) (h : t.occurs x = false) :
+    (u.subst1 x t).occurs x = false := by
+  induction u with
+  | var n => simp only [Tm.subst1]; split <;> simp_all [Tm.occurs]
+  | one => rfl
+  | sum a b iha ihb => simp [Tm.subst1, Tm.occurs, iha, ihb]
+  | prod a b iha ihb => simp [Tm.subst1, Tm.occurs, iha, ihb]
+
+theorem occurs_subst_other (u : Tm) (x y : Nat) (t : Tm) (hu : u.occurs y = false)
+    (ht : t.occurs y = false) : (u.subst1 x t).occurs y = false := by
+  induction u with
+  | var n => simp only [Tm.subst1]; split <;> simp_all [Tm.occurs]
+  | one => rfl
+  | sum a b iha ihb =>
+    simp only [Tm.occurs, Bool.or_eq_false_iff] at hu
+    simp [Tm.subst1, Tm.occurs, iha hu.1, ihb hu.2]
+  | prod a b iha ihb =>
+    simp only [Tm.occurs, Bool.or_eq_false_iff] at hu
+    simp [Tm.subst1, Tm.occurs, iha hu.1, ihb hu.2]
+
+theorem solved_elim {x : Nat} {t : Tm} {E : List Eqn} {S : List Bind}
+    (h : Solved S ((.var x, t) :: E)) (ho : t.occurs x = false) :
+    Solved ((x, t) :: S.map (substS x t)) (E.map (substE x t)) := by
+  obtain ⟨h1, h2, h3⟩ := h
+  have hxt : ∀ p ∈ S, p.1 ≠ x ∧ t.occurs p.1 = false := by
+    intro p hp
+    have := (h2 p hp (.var x, t) (by simp))
+    simp only [Tm.occurs, decide_eq_false_iff_not] at this
+    exact ⟨fun h => this.1 h.symm, this.2⟩
+  refine ⟨?_, ?_, ?_⟩
+  · intro p hp q hq
+    simp only [List.mem_cons, List.mem_map] at hp hq
+    rcases hp with rfl | ⟨p', hp', rfl⟩
+    · rcases hq with rfl | ⟨q', _, rfl⟩
+      · exact ho
+      · exact occurs_subst_self _ _ _ ho
+    · rcases hq with rfl | ⟨q', hq', rfl⟩
+      · exact (hxt p' hp').2
+      · exact occurs_subst_other _ _ _ _ (h1 p' hp' q' hq') (hxt p' hp').2
+  · intro p hp e he
+    simp only [List.mem_cons, List.mem_map] at hp he
+    obtain ⟨e', he', rfl⟩ := he
+    rcases hp with rfl | ⟨p', hp', rfl⟩
+    · exact ⟨occurs_subst_self _ _ _ ho, occurs_subst_self _ _ _ ho⟩
+    · have := h2 p' hp' e' (by simp [he'])
+      exact ⟨occurs_subst_other _ _ _ _ this.1 (hxt p' hp').2,
+             occurs_subst_other _ _ _ _ this.2 (hxt p' hp').2⟩
+  · simp only [List.map_cons, List.map_map]
+    have : (S.map ((·.1) ∘ substS x t)) = S.map (·.1) := by
+      apply List.map_congr_left; intro p _; rfl
+    rw [this, List.nodup_cons]
+    refine ⟨?_, h3⟩
+    intro hmem
+    obtain ⟨p, hp, hpx⟩ := List.mem_map.1 hmem
+    exact (hxt p hp).1 hpx
+
+theorem solved_tail {e : Eqn} {E : List Eqn} {S : List Bind} (h : Solved S (e :: E)) : Solved S E :=
+  ⟨h.1, fun p hp e' he' => h.2.1 p hp e' (by simp [he']), h.2.2⟩
+
+theorem solved_swap {x : Nat} {t : Tm} {E : List Eqn} {S : List Bind}
+    (h : Solved S ((t, .var x) :: E)) : Solved S ((.var x, t) :: E) := by
+  refine ⟨h.1, ?_, h.2.2⟩
+  intro p hp e he
+  simp only [List.mem_cons] at he
+  rcases he with rfl | he
+  · have := h.2.1 p hp (t, .var x) (by simp); exact ⟨this.2, this.1⟩
+  · exact h.2.1 p hp e (by simp [he])
+
+theorem solved_decomp {a b c d : Tm} {E : List Eqn} {S : List Bind}
+    (h : ∀ p ∈ S, (a.occurs p.1 = false ∧ b.occurs p.1 = false) ∧
+                   (c.occurs p.1 = false ∧ d.occurs p.1 = false))
+    (ht : Solved S E) : Solved S ((a, c) :: (b, d) :: E) := by
+  refine ⟨ht.1, ?_, ht.2.2⟩
+  intro p hp e he
+  simp only [List.mem_cons] at he
+  rcases he with rfl | rfl | he
+  · exact ⟨(h p hp).1.1, (h p hp).2.1⟩
+  · exact ⟨(h p hp).1.2, (h p hp).2.2⟩
+  · exact ht.2.1 p hp e he
+
+theorem elim_solved (u : List Eqn → List Bind → Res)
+    (hu : ∀ E S S', Solved S E → u E S = .ok S' → Solved S' [])
+    (x : Nat) (t : Tm) (E : List Eqn) (S S' : List Bind)
+    (h : Solved S ((.var x, t) :: E)) (hr : elim u x t E S = .ok S') : Solved S' [] := by
+  unfold elim at hr
+  split at hr
+  · exact hu _ _ _ (solved_tail h) hr
+  · split at hr
+    · cases hr
+    · next _ ho => exact hu _ _ _ (solved_elim h (by simpa using ho)) hr
+
+theorem unify_solved : ∀ (f : Nat) (E : List Eqn) (S S' : List Bind),
+    Solved S E → unify f E S = .ok S' → Solved S' [] := by
+  intro f
+  induction f with
+  | zero => intro E S S' _ h; simp [unify] at h
+  | succ f ih =>
+    intro E S S' hs hr
+    cases E with
+    | nil => simp only [unify] at hr; cases hr; exact hs
+    | cons e E =>
+      obtain ⟨s, t⟩ := e
+      cases s with
+      | var x => simp only [unify] at hr; exact elim_solved _ ih x t E S S' hs hr
+      | one =>
+        cases t with
+        | var x => simp only [unify] at hr; exact elim_solved _ ih x .one E S S' (solved_swap hs) hr
+        | one => simp only [unify] at hr; exact ih _ _ _ (solved_tail hs) hr
+        | sum c d => simp [unify] at hr
+        | prod c d => simp [unify] at hr
+      | sum a b =>
+        cases t with
+        | var x => simp only [unify] at hr; exact elim_solved _ ih x _ E S S' (solved_swap hs) hr
+        | one => simp [unify] at hr
+        | sum c d =>
+          simp only [unify] at hr
+          refine ih _ _ _ (solved_decomp ?_ (solved_tail hs)) hr
+          intro p hp
+          have := hs.2.1 p hp (.sum a b, .sum c d) (by simp)
+          simpa [Tm.occurs, Bool.or_eq_false_iff] using this
+        | prod c d => simp [unify] at hr
+      | prod a b =>
+        cases t with
+        | var x => simp only [unify] at hr; exact elim_solved _ ih x _ E S S' (solved_swap hs) hr
+        | one => simp [unify] at hr
+        | sum c d => simp [unify] at hr
+        | prod c d =>
+          simp only [unify] at hr
+          refine ih _ _ _ (solved_decomp ?_ (solved_tail hs)) hr
+          intro p hp
+          have := hs.2.1 p hp (.prod a b, .prod c d) (by simp)
+          simpa [Tm.occurs, Bool.or_eq_false_iff] using this
+
+/-- the order of `Value::prune`: unit below everything, componentwise otherwise -/
+inductive Le : Ty → Ty → Prop
+  | one (t) : Le .one t
+  | sum {a a' b b'} : Le a a' → Le b b' → Le (.sum a b) (.sum a' b')
+  | prod {a a' b b'} : Le a a' → Le b b' → Le (.prod a b) (.prod a' b')
+
+theorem Le.refl : ∀ t, Le t t
+  | .one => .one _
+  | .sum a b => .sum (Le.refl a) (Le.refl b)
+  | .prod a b => .prod (Le.refl a) (Le.refl b)
+
+theorem eval_mono {ρ ρ' : Nat → Ty} (h : ∀ x, Le (ρ x) (ρ' x)) (t : Tm) :
+    Le (t.eval ρ) (t.eval ρ') := by
+  induction t with
+  | var n => exact h n
+  | one => exact .one _
+  | sum a b iha ihb => exact .sum iha ihb
+  | prod a b iha ihb => exact .prod iha ihb
+
+theorem eval_congr {ρ ρ' : Nat → Ty} (t : Tm) (h : ∀ y, t.occurs y = true → ρ y = ρ' y) :
+    t.eval ρ = t.eval ρ' := by
+  induction t with
+  | var n => exact h n (by simp [Tm.occurs])
+  | one => rfl
+  | sum a b iha ihb =>
+    simp only [Tm.eval]
+    rw [iha (fun y hy => h y (by simp [Tm.occurs, hy])), ihb (fun y hy => h y (by simp [Tm.occurs, hy]))]
+  | prod a b iha ihb =>
+    simp only [Tm.eval]
+    rw [iha (fun y hy => h y (by simp [Tm.occurs, hy])), ihb (fun y hy => h y (by simp [Tm.occurs, hy]))]
+
+def lookup : List Bind → Nat → Option Tm
+  | [], _ => none
+  | (y, t) :: S, x => if y = x then some t else lookup S x
+
+/-- remaining variables set to unit -/
+def closeUnit (S : List Bind) : Nat → Ty := fun x =>
+  match lookup S x with
+  | some t => t.eval (fun _ => .one)
+  | none => .one
+
+theorem lookup_none {S : List Bind} {x : Nat} (h : ∀ p ∈ S, p.1 ≠ x) : lookup S x = none := by
+  induction S with
+  | nil => rfl
+  | cons p S ih =>
+    obtain ⟨y, t⟩ := p
+    simp only [lookup]
+    rw [if_neg (h (y, t) (by simp))]
+    exact ih (fun q hq => h q (by simp [hq]))
+
+theorem lookup_mem {S : List Bind} (hn : (S.map (·.1)).Nodup) {p : Bind} (hp : p ∈ S) :
+    lookup S p.1 = some p.2 := by
+  induction S with
+  | nil => cases hp
+  | cons q S ih =>
+    obtain ⟨y, t⟩ := q
+    simp only [List.map_cons, List.nodup_cons] at hn
+    simp only [List.mem_cons] at hp
+    simp only [lookup]
+    rcases hp with rfl | hp
+    · simp
+    · have : y ≠ p.1 := by
+        intro h; apply hn.1; rw [h]; exact List.mem_map.2 ⟨p, hp, rfl⟩
+      rw [if_neg this]; exact ih hn.2 hp
+
+/-- **principal solution with free variables set to unit = least solution** -/
+theorem closeUnit_least (S : List Bind) (hs : Solved S []) :
+    SolS (closeUnit S) S ∧ ∀ ρ, SolS ρ S → ∀ x, Le (closeUnit S x) (ρ x) := by
+  constructor
+  · intro p hp
+    have hl := lookup_mem hs.2.2 hp
+    show (match lookup S p.1 with | some t => t.eval (fun _ => .one) | none => .one) = _
+    rw [hl]
+    apply eval_congr
+    intro y hy
+    -- y occurs in p.2, hence is not in the domain
+    have : ∀ q ∈ S, q.1 ≠ y := by
+      intro q hq h
+      have := hs.1 q hq p hp
+      rw [h] at this
+      rw [this] at hy; cases hy
+    show Ty.one = closeUnit S y
+    unfold closeUnit; rw [lookup_none this]
+  · intro ρ hρ x
+    unfold closeUnit
+    cases hl : lookup S x with
+    | none => exact .one _
+    | some t =>
+      -- (x, t) ∈ S
+      have hmem : (x, t) ∈ S := by
+        clear hρ hs
+        induction S with
+        | nil => simp [lookup] at hl
+        | cons q S ih =>
+          obtain ⟨y, u⟩ := q
+          simp only [lookup] at hl
+          split at hl
+          · next h => cases hl; subst h; simp
+          · simp [ih hl]
+      have := hρ (x, t) hmem
+      show Le (t.eval fun _ => .one) (ρ x)
+      rw [this]
+      exact eval_mono (fun _ => .one _) t
+
+/-- end-to-end: a successful run from the empty substitution yields the least solution of `E` -/
+theorem unify_least (f : Nat) (E : List Eqn) (S' : List Bind) (h : unify f E [] = .ok S') :
+    Sol (closeUnit S') E ∧ ∀ ρ, Sol ρ E → ∀ x, Le (closeUnit S' x) (ρ x) := by
+  have hg := unify_good f E []
+  rw [h] at hg
+  have hsol : Solved S' [] := unify_solved f E [] S' ⟨by simp, by simp, by simp⟩ h
+  have hl := closeUnit_least S' hsol
+  constructor
+  · exact ((hg _).2 hl.1).1
+  · intro ρ hρ
+    exact hl.2 ρ ((hg ρ).1 ⟨hρ, by simp [SolS]⟩)
+
 #print axioms unify_good
+#print axioms unify_least
 end Inf
